@@ -291,6 +291,9 @@ def parentOf (ver : Nat) (skip : List Nat) (ps : EbAttState) (map : Array Nat) :
 def decodeAttributes (opts : DecOpts) (mesh : Mesh) : DecM (List Attribute) := do
   let ver ← version
   let numAtt := mesh.atts.size
+  -- offsets for the structure-aware corruption campaigns: the decoder count byte is followed by
+  -- (att_data_id, decoder type, traversal method) per decoder
+  tag s!"at:att_decoders:{← remaining}"
   let numDecoders ← rdU8
   -- CreateAttributesDecoder(i)
   let mut attDataDecoder : Array Int := Array.replicate numAtt (-1)
@@ -319,8 +322,10 @@ def decodeAttributes (opts : DecOpts) (mesh : Mesh) : DecM (List Attribute) := d
   -- DecodeAttributesDecoderData of every decoder
   let mut states : Array EbAttState := #[]
   for i in [0:numDecoders] do
+    tag s!"at:att_descs:{← remaining}"
     let descs ← decodeAttDescs
     alloc "controller.sequential_decoders" (8 * descs.length)
+    tag s!"at:att_decoder_types:{← remaining}"
     for d in descs do
       let dt ← rdU8
       require (dt ≤ 3)
